@@ -4,7 +4,8 @@
   not from the code):
 
   * Partial: same fields, none required;
-  * AllFieldsRequired: same fields, every field without an explicit default required;
+  * AllFieldsRequired: same fields, every field without an explicit default required (a Constant
+    has a fixed value and is not a constructor argument: it is carried over, not required);
   * Extend: same fields, same required;
   * Omit: the fields not listed, required restricted to them;
   * Pick: the fields listed, required restricted to them.
@@ -29,11 +30,16 @@ def memberHasDefault (fs : List (String × Member)) (n : String) : Bool :=
   | some m => m.hasDefault
   | none => false
 
+def memberNeedsValue (fs : List (String × Member)) (n : String) : Bool :=
+  match lookup n fs with
+  | some m => m.needsValue
+  | none => false
+
 /-- `n` is documented to be required in `op` applied to class `c` -/
 def specRequires (op : DeriveOp) (c : ClassDef) (n : String) : Bool :=
   match op with
   | .partialOf => false
-  | .allRequired => c.fieldNames.contains n && !memberHasDefault c.allFields n
+  | .allRequired => memberNeedsValue c.allFields n
   | .extend => c.required.contains n
   | .omit names => c.required.contains n && !names.contains n
   | .pick names => c.required.contains n && names.contains n
